@@ -110,7 +110,7 @@ func main() {
 		if k.Pool == "gemmill-mempool" {
 			for _, c := range mpCfgs {
 				if c.Name == k.Cfg {
-					res = runMp(c, k.Hist, k.Mode)
+					res = runMp(&mpWorker{}, c, k.Hist, k.Mode)
 				}
 			}
 		} else {
@@ -139,6 +139,10 @@ func main() {
 	exhaustive := true
 
 	// ---- gemmill mempool (cheap) ----
+	mpw := make([]*mpWorker, 16)
+	for i := range mpw {
+		mpw[i] = &mpWorker{}
+	}
 	only := os.Getenv("VERIF_C19_ONLY") // development aid: restrict to one system (evidence is then partial)
 	for _, c := range mpCfgs {
 		c := c
@@ -147,7 +151,7 @@ func main() {
 		}
 		sys := sysDef{Pool: "gemmill-mempool", Cfg: c.Name, Alphabet: mpAlphabet(c), Depth: run.Pick(5, 7), Workers: 16, MergeObs: true, MergeAlts: 1,
 			Deadline: start.Add(time.Duration(float64(budget) * map[string]float64{"A": 0.12, "B": 0.2}[c.Name])),
-			Exec: func(_ int, h []string, mode string) *execResult { return runMp(c, h, mode) }}
+			Exec: func(i int, h []string, mode string) *execResult { return runMp(mpw[i], c, h, mode) }}
 		s := explore(sys, rep)
 		stats["gemmill-mempool/"+c.Name] = s
 		if s.Capped {
